@@ -38,7 +38,8 @@ Section Step.
     - (* replace_with(None) on a parent-less receiver; ASTNodeReplaceWithError of replace_with(None) *)
       destruct new as [n|].
       + destruct ob; try contradiction.
-        simpl in E. destruct (op_replace_with H ct s a (Some n)); simpl in E; inversion E; subst. exact HI.
+        * destruct G as [Hp [Hd HG]]. eapply inv2_step_replace_with_root; eassumption.
+        * simpl in E. destruct (op_replace_with H ct s a (Some n)); simpl in E; inversion E; subst. exact HI.
       + destruct ob as [|b|r|o made|e|]; try contradiction.
         * eapply inv2_step_replace_with_none_root; eassumption.
         * destruct e; try contradiction. rewrite (replace_with_none_rejected H ct _ _ _ E). exact HI.
